@@ -49,7 +49,9 @@ def do_reads(node, acked, ctxs, res, sig, witness, when, issued=None):
     """acked: dict k->ctx of events acknowledged (and barrier-ed) before these reads."""
     st = node.meta("state")
     vs = vis_state(st)
-    sig = dict(sig, inflight_unindexed=inflight_unindexed(st))
+    # flushing: some rotated memtable has not finished its flush (in-flight marker or non-empty passive buffer) when the reads are issued
+    sig = dict(sig, inflight_unindexed=inflight_unindexed(st),
+               flushing=any(sh["inflight"] or any(p for p in sh["passive"]) for sh in st))
     res.add_set("visibility_states", vs)
     want = sorted(acked)
     issued = issued if issued is not None else set(acked)
@@ -198,7 +200,7 @@ def crossing_task(task, wdir, res):
         vs = vis_state(st_at_park) + "->" + vis_state(st_before_resume)
         res.add_set("visibility_states", vs)
         res.nontrivial(("crossing", F or "none", R, kind, vs))
-        s = dict(sig, read=kind, inflight_unindexed=inflight_unindexed(st_at_park))
+        s = dict(sig, read=kind, inflight_unindexed=inflight_unindexed(st_at_park), flushing=True)   # a flush always runs while the read is parked
         w = dict(witness, query=q, state_at_park=st_at_park, state_before_resume=st_before_resume)
         want = sorted(before_call)
         if kind == "count":
